@@ -13,8 +13,8 @@ func c09LabOpts() lab.GenOpts {
 	return lab.GenOpts{
 		Engines: []string{"v1", "v2"}, MaxSources: 2, MaxDests: 3, MaxRecords: 12, MaxProcs: 2,
 		Nacks: true, Filters: true, Splits: true, Conditions: true, Workers: true,
-		UnlimitedDLQ: true, GateAcks: true, Hostile: true, FreeSched: 35,
-		ClientKinds: []string{"stop", "stopandwait"}, ClientProb: 0.3,
+		UnlimitedDLQ: true, GateAcks: true, Hostile: true, FreeSched: 30, GateCalls: 50,
+		ClientKinds: []string{"stop", "stopandwait", "forcestop", "forcestop"}, ClientProb: 0.5,
 		MaxRetries: []int64{0, 1},
 	}
 }
